@@ -58,6 +58,39 @@ V("c03-rw-reorder-independent", "rewrite", "C03", P + "convex_polyhedron.py",
 V("c03-rw-del-edges", "rewrite", "C03", P + "polyhedron.py",
   '        self.__dict__.pop("edges", None)\n', '        if "edges" in self.__dict__:\n            del self.edges\n')
 
+# ------------------------------------------------------------------------------------------ C07
+V("c07-normal-operands-swapped", "fault", "C07", P + "polyhedron.py",
+  "                self.vertices[face[2]] - self.vertices[face[1]],\n                self.vertices[face[0]] - self.vertices[face[1]],",
+  "                self.vertices[face[0]] - self.vertices[face[1]],\n                self.vertices[face[2]] - self.vertices[face[1]],", rule="NRM-1")
+V("c07-convex-normal-operands-swapped", "fault", "C07", P + "convex_polyhedron.py", "        normals = np.cross(v1, v2)", "        normals = np.cross(v2, v1)", rule="NRM-1")
+V("c07-rw-normal-consecutive-edges", "rewrite", "C07", P + "convex_polyhedron.py", "        v2 = vertices[:, 0] - vertices[:, 1]", "        v2 = vertices[:, 0] - vertices[:, 2]")
+V("c07-normal-not-normalised", "fault", "C07", P + "polyhedron.py", "            normal /= np.linalg.norm(normal)\n", "", rule="NRM-2")
+V("c07-kabsch-minus-z", "fault", "C07", P + "convex_polyhedron.py",
+  "                [normal, -normal], [[0, 0, 1], [0, 0, -1]]\n            )\n            vertices = np.dot(vertices - np.mean(vertices, axis=0), rotation.T)",
+  "                [normal, -normal], [[0, 0, -1], [0, 0, 1]]\n            )\n            vertices = np.dot(vertices - np.mean(vertices, axis=0), rotation.T)", rule="CCW-1")
+V("c07-lexsort-keys-swapped", "fault", "C07", P + "convex_polyhedron.py",
+  "            vert_order = np.lexsort((distances, angles))\n\n            # Apply reordering to every simplex", "            vert_order = np.lexsort((angles, distances))\n\n            # Apply reordering to every simplex", rule="CCW-1")
+V("c07-neighbors-one-direction", "fault", "C07", P + "polyhedron.py", "            self._neighbors[i].append(j)\n            self._neighbors[j].append(i)\n", "            self._neighbors[i].append(j)\n", rule="NBR-1")
+V("c07-pairs-skip-adjacent", "fault", "C07", P + "polyhedron.py", "            for j in range(i + 1, self.num_faces):", "            for j in range(i + 2, self.num_faces):", rule="NBR-2")
+V("c07-pairs-cut-last", "fault", "C07", P + "polyhedron.py", "            for j in range(i + 1, self.num_faces):", "            for j in range(i + 1, self.num_faces - 1):", rule="NBR-2")
+V("c07-edges-one-direction-sets", "fault", "C07", P + "polyhedron.py", "            set(_face_to_edges(f) + _face_to_edges(f, True)) for f in self.faces", "            set(_face_to_edges(f)) for f in self.faces", rule="NBR-2")
+V("c07-edges-no-filter", "fault", "C07", P + "polyhedron.py", "                for i, j in zip(face, np.roll(face, -1))\n                if i < j\n", "                for i, j in zip(face, np.roll(face, -1))\n", rule="EDG-1")
+V("c07-edges-open-cycle", "fault", "C07", P + "polyhedron.py", "                for i, j in zip(face, np.roll(face, -1))\n", "                for i, j in zip(face[:-1], face[1:])\n", rule="EDG-1")
+V("c07-euler-off-by-one", "fault", "C07", P + "convex_polyhedron.py", "        return self.num_vertices + self.num_faces - 2", "        return self.num_vertices + self.num_faces - 1", rule="EUL-1")
+V("c07-lookup-isclose", "fault", "C07", P + "polyhedron.py", "np.where(np.all(self.vertices == vertex, axis=1))[0][0]", "np.where(np.all(np.isclose(self.vertices, vertex), axis=1))[0][0]", rule="IDX-2")
+V("c07-orientation-by-first-face", "fault", "C07", P + "polyhedron.py", "        if self.volume < 0:\n            for i in range(len(self.faces)):", "        if self._equations[0, 3] > 0:\n            for i in range(len(self.faces)):", rule="ORI-1")
+V("c07-rw-normal-cyclic-shift", "rewrite", "C07", P + "polyhedron.py",
+  "                self.vertices[face[2]] - self.vertices[face[1]],\n                self.vertices[face[0]] - self.vertices[face[1]],",
+  "                self.vertices[face[0]] - self.vertices[face[2]],\n                self.vertices[face[1]] - self.vertices[face[2]],")
+V("c07-rw-normal-temporaries", "rewrite", "C07", P + "convex_polyhedron.py", "        normals = np.cross(v1, v2)", "        normals = -np.cross(v2, v1)")
+V("c07-rw-edges-j-greater", "rewrite", "C07", P + "polyhedron.py", "                if i < j\n", "                if j > i\n")
+V("c07-rw-edges-roll-plus", "rewrite", "C07", P + "polyhedron.py", "                for i, j in zip(face, np.roll(face, -1))\n                if i < j\n", "                for j, i in zip(face, np.roll(face, 1))\n                if i < j\n")
+V("c07-rw-neighbors-names", "rewrite", "C07", P + "polyhedron.py",
+  "        for i, j, _ in self._get_face_intersections():\n            self._neighbors[i].append(j)\n            self._neighbors[j].append(i)\n",
+  "        for first, second, _edge in self._get_face_intersections():\n            self._neighbors[second].append(first)\n            self._neighbors[first].append(second)\n")
+V("c07-rw-euler-order", "rewrite", "C07", P + "convex_polyhedron.py", "        return self.num_vertices + self.num_faces - 2", "        return self.num_faces - 2 + self.num_vertices")
+V("c07-rw-pairs-hoisted-count", "rewrite", "C07", P + "polyhedron.py",
+  "        for i in range(self.num_faces):\n            for j in range(i + 1, self.num_faces):", "        nf = self.num_faces\n        for i in range(nf):\n            for j in range(i + 1, nf):")
 # ------------------------------------------------------------------------------------------ C08
 V("c08-drop-guard-convex-volume", "fault", "C08", P + "convex_polyhedron.py",
   "        if value > 0:\n            scale_factor = np.cbrt(value / self._volume)\n            self._rescale(scale_factor)\n        else:\n            raise ValueError(\"Volume must be greater than zero.\")",
@@ -459,7 +492,7 @@ V("c20-save-unknown-silent", "fault", "C20", P + "polyhedron.py",
 V("c20-rw-join-generator", "rewrite", "C20", IO, "content += f\"v {' '.join([str(coord) for coord in v])}\\n\"", "content += \"v \" + ' '.join([str(coord) for coord in v]) + \"\\n\"")
 
 # ------------------------------------------------------------------------------------------ benign rewrites checked against ALL properties
-ALLP = [f"C{i:02d}" for i in range(1, 21) if i != 7]
+ALLP = [f"C{i:02d}" for i in range(1, 21)]
 V("rw-all-rename-zero-q", "rewrite", ALLP, P + "polygon.py", "zero_q", "mask0", all=True)
 V("rw-all-rename-dots", "rewrite", ALLP, P + "polyhedron.py",
   "        dots = np.inner(points, self._equations[:, :3])\n        distances = dots + self._equations[:, 3]",
